@@ -109,7 +109,11 @@ def get_ranges(headervalue, content_length):
 
 def _get_ranges(headervalue, content_length):
     result = []
-    _bytesunit, byteranges = headervalue.split('=', 1)
+    bytesunit, byteranges = headervalue.split('=', 1)
+    if bytesunit.strip().lower() != 'bytes':
+        # rfc 7233 sec 3.1: a range unit the server does not understand
+        # is ignored
+        return None
     for brange in byteranges.split(','):
         start, stop = (x.strip() for x in brange.split('-', 1))
         if start:
